@@ -152,6 +152,16 @@ def plan_ops(ctx, spec, route):
         # some record has length != bases per line, so the report is not requested for such files in 90 % of runs
         if not (excl and any(len(r["seq"]) > r["width"] for r in recs)):
             ops.append({"op": "lengths"})
+    if tape.feature("c17_large_batch") and tape.boolean("bigbatch", 1, 4):
+        # one batch of 64 and more intervals over all records in random order (batch-size dependent code paths)
+        path = tape.choice(["plain", "fast"], "bigbatch.path")
+        ivs = []
+        for _ in range(64 + tape.draw(40, "bigbatch.n")):
+            i = tape.draw(len(recs), "bigbatch.rec")
+            a, b = F.gen_interval(tape, len(recs[i]["seq"]), recs[i]["width"], "bigbatch.iv")
+            ivs.append((i, a, b))
+        ops.append({"op": "batch", "path": path, "labels": "file", "ivs": ivs, "n": len(ivs)})
+        ctx.probe("batch_of_64_or_more_intervals")
     return ops
 
 
